@@ -16,7 +16,7 @@ ENGINES = [
      "kind_free_text": "Kani 0.68 / CBMC 6.11 assume-assert contract harnesses over the unmodified crate (scratch copy), full-domain symbolic inputs, lazy buffers of symbolic length up to 2^40; counterexamples replayed natively",
      "serves_properties": ["C01", "C02", "C04", "C05", "C06", "C07", "C08", "C09", "C11", "C12", "C13", "C14", "C15", "C17", "C18", "C20"]},
     {"name": "native-bounded", "path": "/verif/native",
-     "kind_free_text": "bounded stand-in for packet() (n1_packet) and the witness search w_server: the real code run natively over a stated finite input set against an executable copy of the specification (labelled bounded, never counted as proved; the witness search only runs when a proof leg fails or is undecided, and in the thorough tier)",
+     "kind_free_text": "bounded cross-check of the transcribed nom combinators behind packet() (n1_packet) and the witness search w_server: the real code run natively over a stated finite input set against an executable copy of the specification (labelled bounded, never counted as proved; the witness search only runs when a proof leg fails or is undecided, and in the thorough tier)",
      "serves_properties": ["C01", "C02", "C03", "C04", "C05", "C06", "C07", "C08", "C09", "C10", "C11", "C12", "C13", "C14", "C16", "C17", "C19", "C20"]},
 ]
 
@@ -35,17 +35,17 @@ K = "Kani/CBMC contract harness, full-domain symbolic"
 CLAIMS = {
     "C01": {
         "engine": "verus+kani",
-        "technique": V + " (PacketConn::next: postcondition over every partition of the byte stream, loop invariant, termination) + " + K + " (fullpacket/onepacket, real constant, length <= 2^40); packet() composition: bounded native stand-in",
+        "technique": V + " (PacketConn::next: postcondition over every partition of the byte stream, loop invariant, termination) + " + K + " (fullpacket/onepacket, real constant, length <= 2^40) + Verus proof of packet() (real closures; nom's map/pair/fold_many0 nest transcribed and verified, unit U7)",
         "design_ref": "DESIGN.md section 6 C01",
-        "text": "PacketConn::next is proved against unframe(pending): Ok(Some) returns exactly the next framed message and advances pending by exactly its length, Ok(None) only on an empty stream, Err only on a transport fault, a truncated stream or out-of-order fragment ids; because Transport::read's contract lets every call return any n <= available, this holds for every chunking. fullpacket/onepacket are proved by CBMC with the real 0xFFFFFF constant for inputs of symbolic length. The hub hands exactly that packet to commands::parse (U5).",
-        "note": "packet() (nom fold_many0/pair/map composition) is NOT proved: CBMC exhausts memory; it is checked by a bounded native enumeration on real-size fragments (0..=3 full fragments x 4 final lengths x 8 id patterns x truncation points) and assumed beyond. Assumed: Transport contract (std Read/Write semantics), Vec length <= isize::MAX, vec_drain_prefix/vec_tail_mut helper specs, SwitchableConn behaves as a Transport.",
+        "text": "PacketConn::next is proved against unframe(pending): Ok(Some) returns exactly the next framed message and advances pending by exactly its length, Ok(None) only on an empty stream, Err only on a transport fault, a truncated stream or out-of-order fragment ids; because Transport::read's contract lets every call return any n <= available, this holds for every chunking. fullpacket/onepacket are proved by CBMC with the real 0xFFFFFF constant for inputs of symbolic length. packet() -- the fold over any number of maximal fragments plus the final short one -- is proved in Verus (unit U7) to return exactly unframe(input): the concatenated payload, the last fragment's id, the exact consumed length, and the 'ids consecutive modulo 256' flag; its two closures are the real text of /repo. The hub hands exactly that packet to commands::parse (U5).",
+        "note": "nom's combinators map/pair/fold_many0 are not readable by Verus: their composition is TRANSCRIBED from the nom 7.1.3 sources into one function (contracts/prelude/nomfold.vrs), which is verified, and packet()'s call is flattened onto it by declared substitutions; trusted: that the transcription matches nom -- cross-checked (bounded) by the native enumeration N1 that runs the real packet() on real-size fragments (0..=3 full fragments x 4 final lengths x 8 id patterns x truncation points). Assumed: Transport contract (std Read/Write semantics), Vec length <= isize::MAX, vec_drain_prefix/vec_tail_mut helper specs, SwitchableConn behaves as a Transport.",
     },
     "C02": {
         "engine": "verus+kani",
         "technique": V + " (run: per-iteration assertion shim.log == log0 + dispatch(cmd) for all nine arms) + " + K + " (commands::parse == command table, payload length symbolic <= 2^40)",
         "design_ref": "DESIGN.md section 6 C02",
         "text": "commands::parse is proved equal to the protocol's command table for every payload (variant, slices by pointer and length, little-endian ids, Err for unknown/empty/truncated). The real run loop is proved to append to the ghost shim log exactly dispatch(cmd): one callback per shim-bound command with the verbatim payload slice, none for PING/FIELD_LIST/SELECT @@/QUIT/SEND_LONG_DATA, USE -> on_init(bare(..)), non-UTF-8 text -> Err before any callback.",
-        "note": "Includes C01: the check also runs the inbound reassembly obligations (U1 next, K1 fullpacket/onepacket, bounded N1 for packet()) and counts their clauses as its own -- a command that is not reassembled exactly does not reach its callback verbatim. Assumed: str::from_utf8 (uninterpreted validity predicate), the `USE` name trimming chain trim/trim_end_matches/trim_matches (uninterpreted function `bare`; std's str methods are not verified), <[u8]>::starts_with and byte-string match (helper specs), the ghost-shim model (each callback logs exactly its arguments).",
+        "note": "Includes C01: the check also runs the inbound reassembly obligations (U1 next, K1 fullpacket/onepacket, U7 packet() with bounded N1 as cross-check of the transcribed nom combinators) and counts their clauses as its own -- a command that is not reassembled exactly does not reach its callback verbatim. Assumed: str::from_utf8 (uninterpreted validity predicate), the `USE` name trimming chain trim/trim_end_matches/trim_matches (uninterpreted function `bare`; std's str methods are not verified), <[u8]>::starts_with and byte-string match (helper specs), the ghost-shim model (each callback logs exactly its arguments).",
     },
     "C03": {
         "engine": "verus",
@@ -66,7 +66,7 @@ CLAIMS = {
         "technique": V + " (seq is part of the framing machine: each emitted packet carries seq and seq' = seq+1 mod 256; hub sets seq = request id + 1 before any write) + " + K + "/bounded native (packet returns the last fragment's id)",
         "design_ref": "DESIGN.md section 6 C05",
         "text": "PacketConn::new starts at 0; maybe_end_packet stamps the current id and advances it with wrapping_add (proved as part of step_end); run and init are proved to call set_seq(wrap1(request id)) before any reply byte is written (arithmetic overflow obligations discharged); responses of any number of packets therefore carry consecutive ids modulo 256 by the C04 frame lemma.",
-        "note": "packet()'s 'id of the last fragment' is bounded (native enumeration). Same trusted base as C04.",
+        "note": "packet()'s 'id of the last fragment' is proved in Verus unit U7 ([C05.packet.lastseq]) over the transcribed nom combinators (trusted to match nom; bounded native cross-check N1). Same trusted base as C04.",
     },
     "C06": {
         "engine": "verus+kani",
@@ -171,7 +171,7 @@ CLAIMS = {
         "technique": K + " (panic-freedom of fullpacket/onepacket/parse/client_handshake/parse_from on all inputs) + " + V + " (next terminates and never panics; run/init never panic; Params::next without precondition)",
         "design_ref": "DESIGN.md section 6 C20",
         "text": "All functions that touch client bytes are proved free of panics and non-terminating loops for every byte string: CBMC's built-in checks on the nom parsers and the value decoder with symbolic contents and lengths, Verus's implicit obligations plus decreases clauses on next and run.",
-        "note": "KNOWN FINDINGS (not repaired): five panic sites in Params::next reachable with a malformed EXECUTE payload when the shim iterates the parameters (D9). packet() panic-freedom is bounded (native enumeration). client_handshake scan bounded.",
+        "note": "KNOWN FINDINGS (not repaired): five panic sites in Params::next reachable with a malformed EXECUTE payload when the shim iterates the parameters (D9). packet() panic-freedom and its out-of-order flag are proved in Verus unit U7 over the transcribed nom combinators (trusted to match nom; bounded native cross-check N1 with overflow checks). (formerly: native enumeration). client_handshake scan bounded.",
     },
 }
 
